@@ -65,6 +65,14 @@ class Pos(int, utype.Rule):
     @utype.Field(dependencies=['pos', 'hidden'])
     def mix(self) -> int:
         return self.pos * 1000 + self.hidden
+
+    @property
+    def sp(self) -> int:
+        return getattr(self, '_sp', 0)
+
+    @sp.setter
+    def sp(self, v: int = utype.Field(ge=0, required=False)):
+        self._sp = v
 {sub}'''
 SUB = '''
 
@@ -77,7 +85,7 @@ FIELDS = {   # attname -> (output name, kind)
 }
 KEYS = {  # accepted spellings -> attname
     "req": "req", "opt": "opt", "pos": "pos", "name": "name", "Name": "name", "imm": "imm", "ci": "ci", "CI": "ci", "Ci": "ci", "CiAlt": "ci", "cialt": "ci",
-    "hidden": "hidden", "ex": "ex", "tags": "tags", "double": "double", "hsum": "double", "mix": "double",
+    "hidden": "hidden", "ex": "ex", "tags": "tags", "double": "double", "hsum": "double", "mix": "double", "sp": "double",
 }
 UNKNOWN = ["zz", "x1"]
 _n = [0]
@@ -188,7 +196,7 @@ def check_invariants(inst, is_schema, options, initial_imm, step, inherit=False)
     # unknown keys
     if is_schema:
         for k, v in dict.items(inst):
-            if k not in [o for o, _ in FIELDS.values()] and k not in ("double", "hsum", "mix"):
+            if k not in [o for o, _ in FIELDS.values()] and k not in ("double", "hsum", "mix", "sp"):
                 if addition is None or addition is False:
                     fails.append((f"unknown-key-stored-although-addition-is-off/{step}", {"key": k}))
                 elif addition == "int" and type(v) is not int:
@@ -250,6 +258,10 @@ def check_invariants(inst, is_schema, options, initial_imm, step, inherit=False)
             fails.append((f"dependent-property-stale/of-no_output-field/attribute/{step}", {"hidden": hid, "hsum": codec.encode(h)}))
         if is_schema and dict.__contains__(inst, "hsum") and dict.__getitem__(inst, "hsum") != hid + 100:
             fails.append((f"dependent-property-stale/of-no_output-field/key/{step}", {"hidden": hid, "hsum": codec.encode(dict.__getitem__(inst, 'hsum'))}))
+    # a property with a setter takes input like a field: what its setter stored went through the declared type and constraints
+    stored = vars(inst).get("_sp", None)
+    if "_sp" in vars(inst) and not (type(stored) is int and stored >= 0):
+        fails.append((f"unparsed-data-stored-through-a-property-setter/{step}", {"stored": codec.encode(stored)}))
     # a property over two fields, one of them never shown in the key view
     vals = {}
     for att in ("pos", "hidden"):
@@ -461,7 +473,7 @@ def op_specs(draw, schema):
     if k in ("update", "update_kw", "ior"):
         keys = draw(st.lists(st.sampled_from(ALL_KEYS if k != "update_kw" else [x for x in ALL_KEYS if x.isidentifier()]), min_size=1, max_size=3, unique=True))
         return {"op": k, "items": [[kk, draw(value_for(kk))] for kk in keys]}
-    key = draw(st.sampled_from(list(FIELDS) + ["double", "zz"] if k in ("setattr", "delattr") else ALL_KEYS))
+    key = draw(st.sampled_from(list(FIELDS) + ["double", "zz", "sp", "sp"] if k in ("setattr", "delattr") else ALL_KEYS))
     op = {"op": k, "key": key}
     if k in ("setattr", "setitem", "pop_default") or (k == "setdefault" and draw(st.booleans())):
         op["value"] = draw(value_for(key))
